@@ -168,6 +168,7 @@ bool cmp(Position& pos, const ref::Pos& rp, int depth, Ctx& c, const std::string
 // the UCI `perft` command: per-move lines and the node total against the oracle
 bool c01_uci_perft(Tape& t, Report& rep, const gen::Root& root)
 {
+    if (!ucifmt::fmt(&rep).perft) return true;  // perft's output format is not the one this parser knows (see ucifmt.h)
     rigns::Rig& R = rigns::rig();
     std::vector<ref::Move> legal = ref::legal_moves(root.cur);
     int depth = (legal.size() <= 40 && t.flag()) ? 2 : 1;
